@@ -2,8 +2,12 @@
 import random
 from concurrent.futures import ThreadPoolExecutor
 from vlib import common as C, gen as G, drv as D, hist as H, sweep as S
-LEVEL = "other"
-EXPLANATION = ("Heap balance of the real process around driver calls: glibc in-use bytes (mallinfo2.uordblks), thread count and open file "
+LEVEL = "proof"
+EXPLANATION = ("Ledger judge: every request the real library issues through its allocation points (SUPERLU_MALLOC/SUPERLU_FREE, routed to the harness by the "
+               "library's own USER_MALLOC/USER_FREE override) is logged with a fresh block id; the Lean-verified judge (Model/Ledger.lean; Props/C17.lean: "
+               "checkCall_iff, checkBalanced_iff, replayL_live_iff — a block is live iff allocated once more than freed, for traces of any length) decides per "
+               "scenario that after the call exactly the blocks reachable from what the caller holds (L, U, option arrays) are live, and that after the "
+               "documented destroy routines nothing is. Complement (allocations that bypass the allocation points): heap balance of the real process around driver calls: glibc in-use bytes (mallinfo2.uordblks), thread count and open file "
                "descriptors are sampled before and after R repetitions of a scenario (call + documented destroy routines), after one warm-up "
                "repetition (OpenBLAS and stdio allocate lazily). Any growth is a leak; growth per repetition is reported. Scenarios: simple and expert "
                "driver (all fact/trans/refact modes), singular input, illegal arguments, workspace query, user workspace, 1..4 threads, s and d. "
@@ -63,6 +67,54 @@ def valgrind_leaks(exe, script, timeout=300):
     return r.returncode, total, recs
 
 
+def ledger_stage(ctx, jobs):
+    """run each scenario on the `fault` build with the allocation ledger on; judge the logs with `sludrv ledger`"""
+    C.build_lib("fault")
+    exes = C.build_harness_all_prec("h_drv.c", "fault", precs="ds")
+    def one(j):
+        name, prec, n, head, body = j
+        script = head + "ledger 1\n" + body.replace("destroy\n", "") * 2 + "ledger dump\ndestroy\nledger dump\nquit\n"
+        ops, done, rc, err, text = D.run_script(exes[prec], script, timeout=120, want_text=True)
+        return j, rc, done, err, text
+    with ThreadPoolExecutor(C.NPROC) as ex:
+        outs = list(ex.map(one, jobs))
+    inp = []; meta = {}
+    stats = {"scenarios": 0, "events": 0, "returned_blocks": 0}
+    for k, ((name, prec, n, head, body), rc, done, err, text) in enumerate(outs):
+        blob = {"scenario": name, "prec": prec, "n": n, "script": head + body}
+        if rc != 0 or not done:
+            ctx.violation("ledger-crash:%s" % name, "scenario %s failed on the ledger build rc=%s %s" % (name, rc, (err or "")[-200:]), blob); continue
+        led = [l for l in text.split("\n") if l.startswith("ledger ") and not l.startswith("ledger_")]
+        rets = [l for l in text.split("\n") if l.startswith("ledger_ret")]
+        lives = [l for l in text.split("\n") if l.startswith("ledger_live")]
+        if len(led) != 2 or len(rets) != 2:
+            ctx.violation("ledger-missing:%s" % name, "no ledger dump for scenario %s" % name, blob); continue
+        for which, mode in ((0, "call"), (1, "balanced")):
+            t = led[which].split()
+            nev = int(t[1]); evs = t[2:]
+            ret = rets[which].split()[1:] if mode == "call" else []
+            cid = "s%d_%s" % (k, mode)
+            inp.append("case %s %s %d %s ret %d %s\n" % (cid, mode, nev, " ".join(evs), len(ret), " ".join(ret)))
+            meta[cid] = (name, prec, n, blob, lives[which] if which < len(lives) else "")
+            stats["events"] += nev; stats["returned_blocks"] += len(ret)
+        stats["scenarios"] += 1
+    if inp:
+        out = C.run_sludrv("ledger", "".join(inp), timeout=600)
+        for line in out.split("\n"):
+            t = line.split()
+            if len(t) < 4 or t[0] != "case": continue
+            name, prec, n, blob, live = meta[t[1]]
+            kv = dict(x.split("=") for x in t[2:4])
+            leaked = t[t.index("leaked") + 1:] if "leaked" in t else []
+            if kv["legal"] != "1":
+                ctx.violation("ledger-illegal:%s" % name, "scenario %s (%s): the library freed a block that is not live in its ledger (double free / foreign pointer)" % (name, t[1]), blob)
+            elif kv["ok"] != "1":
+                sites = sorted(set(x.split("@")[1] for x in live.split()[1:] if x.split("@")[0] in leaked))
+                ctx.violation("ledger-leak:%s:%s" % (name.split(":")[0], ",".join(s_.split(":")[0] for s_ in sites) or "?"),
+                              "scenario %s (%s): blocks %s stay live and are not reachable from what the caller holds; allocated at %s" % (name, t[1].split("_")[-1], leaked[:6], sites[:6]), dict(blob, leaked=leaked, sites=sites))
+    return stats
+
+
 def run(ctx):
     q = ctx.quick()
     C.build_lib("plain")
@@ -83,6 +135,7 @@ def run(ctx):
         head = "ienv 8 4 200 200 100 -50 -50 -30\n" + G.script_mat(0, M, nr=nr, single=(prec == "s")) + G.script_mat(1, Ms, nr=nr, single=(prec == "s"))
         head += G.script_rhs(0, n, 1, n, [b], False, prec == "s") + "permc_get 0 1\n"
         jobs.append((name + (":NR" if nr else ":NC"), prec, n, head, body))
+    ctx.coverage["ledger"] = ledger_stage(ctx, jobs)
     def one(j):
         name, prec, n, head, body = j
         r2 = valgrind_leaks(exes[prec], head + body * 2 + "heap z\nquit\n")
